@@ -347,7 +347,7 @@ func runCase(run *lib.Run, w *world, tc tcase, idx int, r *lib.RNG) outcome {
 			}
 			defer st.Close()
 			c := st.C
-			c.SetDeadline(time.Now().Add(120 * time.Second))
+			c.SetDeadline(time.Now().Add(300 * time.Second))
 			if tc.capT > 0 {
 				c.SetDeadline(t0.Add(tc.capT))
 			}
@@ -447,6 +447,7 @@ func runCase(run *lib.Run, w *world, tc tcase, idx int, r *lib.RNG) outcome {
 					fail(fmt.Sprintf("CONNECT: %v %v", res, err))
 					return
 				}
+				c.SetDeadline(time.Now().Add(300 * time.Second)) // (ReadResponse left its own 20 s deadline on the socket)
 				if tc.dir == "download" {
 					fmt.Fprintf(c, "DL %d %s\n", tc.size, ks)
 					readStream(tc.size, out.rec, c)
